@@ -202,7 +202,7 @@ def expand(rec, arch, sig, opstr, extra):
                 try:
                     out.append(build_form(name, o, var, gsz, vsz, modes, extra))
                     if has_implicit:   # the same record with its implicit operands omitted (asmjit accepts one, the other or both spellings)
-                        out.append(build_form(name, o, [v for v, op in zip(var, ops) if not op.get('implicit')], gsz, vsz, modes, extra))
+                        fo = build_form(name, o, [v for v, op in zip(var, ops) if not op.get('implicit')], gsz, vsz, modes, extra); fo['implicit_omitted'] = True; out.append(fo)
                 except Skip as e:
                     raise
     return out
@@ -448,6 +448,7 @@ for key, forms in groups.items():
             hdr.append('static const Form %s[] = { %s };' % (tabn, ', '.join('%s[%d]' % (tab, i) for i in sel)))
         x64 = 'true' if mode == '64' else 'false'
         rec = dict(inst=name, mode=mode, enc='+'.join(sorted(set(forms[i]['enc'] for i in sel))), has_mem=has_mem, nforms=len(sel), records=sorted(set(forms[i]['record'] for i in sel)))
+        if any(forms[i].get('implicit_omitted') for i in sel): rec['implicit_omitted'] = True
         kl = KF_LEN.get(name) if (has_mem and mode == '64') else None
         if kl:
             harn.append('#if KF_%s\nHARNESS %s() { VF_RUN(%s, vf::%s, %d, 3); }\n#if VF_C01\nHARNESS %s_kf_%s() { vf::run_forms<%s>(vf::%s, %d, 4); }\n#endif\n#else\nHARNESS %s() { VF_RUN(%s, vf::%s, %d, 0); }\n#endif' % (
